@@ -168,13 +168,14 @@ func c08Check(w *World, s *Setup, p ParentRef, changeStep int) *Violation {
 	syncs := 0
 	for _, sy := range w.Syncs("parent") {
 		if sy.StartStep > changeStep && sy.Parent != nil {
-			// (a sync whose creation of the latest ControllerRevision was refused as
-			// AlreadyExists worked from a revision cache that had not heard of it yet - the
-			// slow revision watch of some C09 runs; it touched nothing and is retried, as
-			// often as the watch stays behind, which is not the rollout's doing)
+			// (a sync whose ControllerRevision write the server itself refused - create:
+			// AlreadyExists, delete: NotFound, update: Conflict - worked from a revision
+			// cache that had not caught up yet: the slow revision watch of some C09 runs.
+			// It touched nothing (C09's ordering clause) and is retried as often as the
+			// watch stays behind, which is not the rollout's doing)
 			refused := false
 			for _, q := range sy.Reqs {
-				if q.Res == ResRevision && q.Verb == "create" && q.Answered && q.Code == 409 && q.Fault == "" {
+				if q.Res == ResRevision && q.IsWrite() && q.Answered && q.Fault == "" && (q.Code == 409 || q.Code == 404) {
 					refused = true
 				}
 			}
